@@ -61,4 +61,17 @@ PROPS = {
             "SHA-256 collision resistance enters through property C15 only",
         ],
     },
+    "C20": {
+        "race": True,
+        "trusted": [
+            "the Go race detector (happens-before, ThreadSanitizer runtime) and the Go memory model",
+            "the access lists of the synchronisation skeletons in GabiModel/Conc/HB.lean (hand-written; every race-detector report is mapped to a skeleton object, an unlisted access shows up as `race unlisted[...]`)",
+            "the real verifier / key checks inside the harness child decide validity of concurrently produced proofs and keys (no Lean proof verifier is involved)",
+        ],
+        "assumptions": COMMON_ASSUME + [
+            "PARTIAL: theorems quantify over all schedules of the modelled transition systems; that a skeleton lists all shared accesses of the real code is supported by the -race correspondence run only",
+            "no uint64 wrap of the CPRNG block counter (c0 + total blocks < 2^64) and no uint32 wrap of the exp-proof todo counter (stated as hypotheses)",
+            "AES-CTR / crypto/rand outputs are fresh; only the block counter discipline is modelled",
+        ],
+    },
 }
